@@ -617,13 +617,13 @@ func oracleMD(g *Gen, t, res string) (viol []string) {
 	n := tb.NColumns()
 	hdr, hasHdr, rows := grid(tb)
 	if n == 0 {
-		if class != "err:no-columns" {
+		if !strings.HasPrefix(class, "err") {
 			return []string{"markdown: zero-column table not refused: " + class}
 		}
 		return nil
 	}
 	if !hasHdr {
-		if class != "err:no-headers" {
+		if !strings.HasPrefix(class, "err") {
 			return []string{"markdown: table without headers not refused: " + class}
 		}
 		return nil
